@@ -25,6 +25,8 @@ def features_of(text):
         f.append("negative-default")
     if re.search(r"SET \{\s*(\.\.\.\s*)?\}", text):
         f.append("empty-set")
+    if re.search(r"OF (\[[^\]]*\] )?(IMPLICIT |EXPLICIT )?(SET|SEQUENCE) \(SIZE", text):
+        f.append("of-sized-of")
     return f
 
 
@@ -48,7 +50,7 @@ def run(tier, seed):
     jobs = []
     for i in range(nmod):
         prof = gen.profile(max_len=8, neg_defaults=(i % 3 == 0), second_root=(i % 4 == 1), empty_set=(i % 5 == 4),
-                           named_bits=True)
+                           named_bits=True, nested_of_size=(i % 6 == 5))
         g = gen.Gen(seed * 1000 + 900 + i, prof)
         mod = g.module("M%d" % i, atoms=rng.choice([6, 10, 14]), composites=rng.choice([6, 10, 14]))
         text = mod.text()
@@ -103,7 +105,7 @@ def run(tier, seed):
             objs.append(c[:-2] + ".o")
         rec["cc_errors"] = errs
         if not errs:
-            rcl, _, e = sh(["gcc"] + flags + ["-I" + skel, drvsrc] + objs + ["-o", "drv", "-lm", "-lpthread"], cwd=out, timeout=120)
+            rcl, _, e = sh(["gcc"] + flags + ["-DVDRV_WEAK", "-idirafter", skel, drvsrc] + objs + ["-o", "drv", "-lm", "-lpthread"], cwd=out, timeout=120)
             rec["link_error"] = e[:800] if rcl != 0 else None
             # C++ compatibility of the emitted headers
             with open(os.path.join(out, "allhdr.cc"), "w") as f:
@@ -111,7 +113,7 @@ def run(tier, seed):
                 for hh in hfiles:
                     f.write('#include "%s"\n' % hh)
                 f.write("int main() { return 0; }\n")
-            rcx, _, e = sh(["g++", "-fsyntax-only", "-w", "-I.", "allhdr.cc"], cwd=out, timeout=120)
+            rcx, _, e = sh(["g++", "-fsyntax-only", "-w", "-I."] + [f_ for f_ in flags if f_.startswith("-DASN_")] + ["allhdr.cc"], cwd=out, timeout=120)
             rec["cxx_error"] = e[:800] if rcx != 0 else None
             if rcl == 0:
                 with open(os.path.join(out, "s.txt"), "w") as f:
@@ -136,7 +138,7 @@ def run(tier, seed):
             chk.violation(dict(key, symptom="compiler-hang"), "asn1c did not finish in 180 s", replay)
             continue
         if rc < 0 or rc >= 128 or "AddressSanitizer" in rec["stderr"] or "Assertion" in rec["stderr"]:
-            k2, frame = drv.classify_report(rec["stderr"])
+            k2, frame = drv.classify_report("\n".join(l for l in rec["stderr"].split("\n") if "runtime error:" not in l))
             chk.violation(dict(key, symptom="compiler-died", report=k2, frame=frame),
                           "asn1c died (status %s, %s in %s) on a %s module with options [%s]" % (rc, k2, frame, kind, " ".join(opts)), replay)
             continue
